@@ -233,36 +233,36 @@ Limit   == <<KW("limit"), GP("("), T("num", "2"), P(")")>>
 HeadShape ==
   /\ Top("Head")
   /\ \/ Apply("head_plain", 0, HCall)
-     \/ Apply("head_value", 0, HCall \o <<P("=")>> \o ExprAny)
+     \/ Apply("head_value", 1, HCall \o <<P("=")>> \o ExprAny)
      \/ \E a \in AggOps :
-          Apply("head_agg_value:" \o a, 0, HCall \o <<T("agg", a)>> \o ExprAny)
-     \/ Apply("head_distinct", 0, HCall \o <<KW("distinct")>>)
+          Apply("head_agg_value:" \o a, 1, HCall \o <<T("agg", a)>> \o ExprAny)
+     \/ Apply("head_distinct", 1, HCall \o <<KW("distinct")>>)
      \/ \E a \in AggOps :
-          Apply("head_agg_field:" \o a, 0,
+          Apply("head_agg_field:" \o a, 1,
                 <<T("pred", HeadAt(Here)), GP("(")>> \o ExprAny \o
                 <<P(","), T("field", "s"), P("?"), T("agg", a)>> \o ExprAny
                 \o <<P(")"), KW("distinct")>>)
-     \/ Apply("head_value_distinct", 0,
+     \/ Apply("head_value_distinct", 1,
               HCall \o <<P("=")>> \o ExprAny \o <<KW("distinct")>>)
-     \/ Apply("head_order_by", 0, HCall \o OrderBy)
-     \/ Apply("head_limit", 0, HCall \o Limit)
-     \/ Apply("head_order_by_limit", 0, HCall \o OrderBy \o Limit)
-     \/ Apply("head_distinct_order_by_limit", 0,
+     \/ Apply("head_order_by", 1, HCall \o OrderBy)
+     \/ Apply("head_limit", 1, HCall \o Limit)
+     \/ Apply("head_order_by_limit", 1, HCall \o OrderBy \o Limit)
+     \/ Apply("head_distinct_order_by_limit", 1,
               HCall \o <<KW("distinct")>> \o OrderBy \o Limit)
 
 (* record_internal / aggregating_record_internal of the head               *)
 HeadArgs ==
   /\ Top("HeadArgs")
-  /\ \/ Apply("args_none", 0, <<>>)
+  /\ \/ Apply("args_none", 1, <<>>)
      \/ Apply("args_pos1", 0, ExprAny)
-     \/ Apply("args_pos2", 0, ExprAny \o <<P(",")>> \o ExprAny)
-     \/ Apply("args_named", 0,
+     \/ Apply("args_pos2", 1, ExprAny \o <<P(",")>> \o ExprAny)
+     \/ Apply("args_named", 1,
               <<T("field", FieldAt(Here)), P(":")>> \o ExprAny)
-     \/ Apply("args_pos_named", 0,
+     \/ Apply("args_pos_named", 1,
               ExprAny \o <<P(","), T("field", FieldAt(Here)), P(":")>>
               \o ExprAny)
-     \/ Apply("args_short", 0, <<T("field", FieldAt(Here)), P(":")>>)
-     \/ Apply("args_pos_short", 0,
+     \/ Apply("args_short", 1, <<T("field", FieldAt(Here)), P(":")>>)
+     \/ Apply("args_pos_short", 1,
               ExprAny \o <<P(","), T("field", FieldAt(Here)), P(":")>>)
 
 -----------------------------------------------------------------------------
@@ -273,7 +273,7 @@ HeadArgs ==
 BodyShape ==
   /\ Top("Body")
   /\ \/ Apply("body_single", 0, PropW)
-     \/ Apply("conjunction2", 0, PropW \o <<P(",")>> \o PropW)
+     \/ Apply("conjunction2", 1, PropW \o <<P(",")>> \o PropW)
      \/ Composite /\ Apply("conjunction3", 1,
               PropW \o <<P(",")>> \o PropW \o <<P(",")>> \o PropW)
      \/ Composite /\ Apply("disjunction2", 1, PropW \o <<P("|")>> \o PropW)
@@ -351,6 +351,15 @@ PropCombine ==
      \/ \E a \in AggOps :
           Apply("assign_combination:" \o a, 1,
                 WP(<<T("var", VarAt(Here)), T("agg", a)>> \o ExprAny))
+     \* "If combine has a body then it must be enclosed in parenthesis"; as
+     \* the sole argument of a call both parsers reject it with the
+     \* diagnostic "place it in auxiliary variable first", so the
+     \* generator emits it in the advised position.
+     \/ \E a \in AggOps :
+          Apply("combine_body:" \o a, 1,
+                WP(<<T("var", VarAt(Here)), P("=="), P("("), KW("combine"),
+                     T("agg", a)>> \o ExprAny \o <<P(":-")>> \o Body
+                   \o <<P(")")>>))
 
 -----------------------------------------------------------------------------
 (* expression ::= call | unary_operator_call | binary_operator_call |      *)
@@ -360,24 +369,22 @@ PropCombine ==
 (* Modes: "any"; "prim" (no bare infix: safe as an operand); "bin" (bare   *)
 (* infix only).                                                            *)
 
-ExprLeafRot ==   \* forced leaf once the fuel is spent (no choice)
-  /\ TopM("Expr", {"any", "prim"}) /\ ~Composite
+ExprLeafRot ==   \* the default leaf (free; the only choice once the fuel is spent)
+  /\ TopM("Expr", {"any", "prim"})
   /\ IF Here % 2 = 0
        THEN Apply("variable", 0, <<T("var", VarAt(Here))>>)
        ELSE Apply("number_int", 0, <<T("num", IntAt(Here))>>)
 
 ExprLeaf ==
   /\ TopM("Expr", {"any", "prim"}) /\ Composite
-  /\ \/ Apply("variable", 0, <<T("var", VarAt(Here))>>)
-     \/ Apply("number_int", 0, <<T("num", IntAt(Here))>>)
-     \/ Apply("number_decimal", 0, <<T("num", DecAt(Here))>>)
-     \/ Apply("string_dq", 0, <<T("str", "dq")>>)
-     \/ Apply("string_sq", 0, <<T("str", "sq")>>)
-     \/ Apply("string_tq", 0, <<T("str", "tq")>>)
-     \/ Apply("boolean_literal", 0,
+  /\ \/ Apply("number_decimal", 1, <<T("num", DecAt(Here))>>)
+     \/ Apply("string_dq", 1, <<T("str", "dq")>>)
+     \/ Apply("string_sq", 1, <<T("str", "sq")>>)
+     \/ Apply("string_tq", 1, <<T("str", "tq")>>)
+     \/ Apply("boolean_literal", 1,
               <<T("kw", IF Here % 2 = 0 THEN "true" ELSE "false")>>)
-     \/ Apply("null_literal", 0, <<T("kw", "null")>>)
-     \/ Apply("predicate_literal", 0, <<T("pred", PredAt(Here))>>)
+     \/ Apply("null_literal", 1, <<T("kw", "null")>>)
+     \/ Apply("predicate_literal", 1, <<T("pred", PredAt(Here))>>)
 
 FnCall(inner) == <<T("pred", FnAt(Here)), GP("(")>> \o inner \o <<P(")")>>
 
@@ -414,10 +421,6 @@ ExprPrimary ==
               \o <<KW("else if")>> \o ExprAny \o <<KW("then")>> \o ExprAny
               \o <<KW("else")>> \o ExprAny \o <<P(")")>>)
      \/ \E a \in AggOps :
-          Apply("combine_body:" \o a, 1,
-                <<P("("), KW("combine"), T("agg", a)>> \o ExprAny \o
-                <<P(":-")>> \o Body \o <<P(")")>>)
-     \/ \E a \in AggOps :
           Apply("combine_nobody:" \o a, 1,
                 <<P("("), KW("combine"), T("agg", a)>> \o ExprAny \o <<P(")")>>)
      \/ \E f \in AggFns :
@@ -432,6 +435,12 @@ ExprInfix ==
           Apply("binary:" \o op, 1, Operand \o <<P(op)>> \o Operand)
      \/ \E op \in UnOps :
           Apply("unary:" \o op, 1, <<P(op)>> \o Operand)
+     \* an operator immediately followed by a call (x+F(y)): the shape in
+     \* which the operator character touches a predicate name
+     \/ \E op \in {"+", "-", "*", "/"} :
+          Apply("binary_then_call:" \o op, 1,
+                Operand \o <<P(op)>> \o
+                Wrap("expr", TRUE, FnCall(ExprAny)))
      \/ Apply("inclusion", 1, Operand \o <<KW("in")>> \o Operand)
 
 (* An operand of an infix construct: a primary (parentheses around it are  *)
@@ -496,6 +505,7 @@ Modelled ==
   \cup {"combine_braces:" \o f : f \in AggFns}
   \cup {"binary:" \o op : op \in BinOps}
   \cup {"unary:" \o op : op \in UnOps}
+  \cup {"binary_then_call:" \o op : op \in {"+", "-", "*", "/"}}
 
 ASSUME PrintT(<<"MODELLED", ToJson(Modelled)>>)
 
